@@ -14,7 +14,8 @@ def scale_symmetric(A):
     A = A.tocoo()
     a_rows = A.row
     a_cols = A.col
-    a_data = np.abs(A.data)
+    # (floating point copy: integer-typed matrices would truncate the rescaled entries)
+    a_data = np.abs(A.data).astype(float)
 
     max_it = 100
 
